@@ -214,11 +214,11 @@ static int gen_table_verifier(fb_output_t *out, fb_compound_type_t *ct)
     fprintf(out->fp, "}\n\n");
     fprintf(out->fp,
             "static inline int %s_verify_as_root(const void *buf, size_t bufsiz)\n"
-            "{\n    return flatcc_verify_table_as_root(buf, bufsiz, %s_identifier, &%s_verify_table);\n}\n\n",
+            "{\n    return flatcc_verify_table_as_root(buf, bufsiz, %s_file_identifier, &%s_verify_table);\n}\n\n",
             snt.text, snt.text, snt.text);
     fprintf(out->fp,
             "static inline int %s_verify_as_root_with_size(const void *buf, size_t bufsiz)\n"
-            "{\n    return flatcc_verify_table_as_root_with_size(buf, bufsiz, %s_identifier, &%s_verify_table);\n}\n\n",
+            "{\n    return flatcc_verify_table_as_root_with_size(buf, bufsiz, %s_file_identifier, &%s_verify_table);\n}\n\n",
             snt.text, snt.text, snt.text);
     fprintf(out->fp,
             "static inline int %s_verify_as_typed_root(const void *buf, size_t bufsiz)\n"
@@ -256,11 +256,11 @@ static int gen_struct_verifier(fb_output_t *out, fb_compound_type_t *ct)
 
     fprintf(out->fp,
             "static inline int %s_verify_as_root(const void *buf, size_t bufsiz)\n"
-            "{\n    return flatcc_verify_struct_as_root(buf, bufsiz, %s_identifier, %"PRIu64", %"PRIu16");\n}\n\n",
+            "{\n    return flatcc_verify_struct_as_root(buf, bufsiz, %s_file_identifier, %"PRIu64", %"PRIu16");\n}\n\n",
             snt.text, snt.text, ct->size, ct->align);
     fprintf(out->fp,
             "static inline int %s_verify_as_root_with_size(const void *buf, size_t bufsiz)\n"
-            "{\n    return flatcc_verify_struct_as_root_with_size(buf, bufsiz, %s_identifier, %"PRIu64", %"PRIu16");\n}\n\n",
+            "{\n    return flatcc_verify_struct_as_root_with_size(buf, bufsiz, %s_file_identifier, %"PRIu64", %"PRIu16");\n}\n\n",
             snt.text, snt.text, ct->size, ct->align);
     fprintf(out->fp,
             "static inline int %s_verify_as_typed_root(const void *buf, size_t bufsiz)\n"
